@@ -7,6 +7,7 @@ import (
 	"math"
 	"math/rand"
 	"reflect"
+	"sort"
 	"strings"
 
 	"github.com/ClickHouse/ch-go/proto"
@@ -92,6 +93,7 @@ func c17Revisions(r *core.Run) []int {
 	for v := range set {
 		out = append(out, v)
 	}
+	sort.Ints(out)
 	return out
 }
 
